@@ -53,6 +53,8 @@ POS_D = {p[0]: p for p in POSITIONS}
 LITERALS = [
     ('str6', "'abcdef'", 1), ('bytes6', "b'abcdef'", 1), ('none', 'None', 2), ('true', 'True', 2), ('false', 'False', 2),
     ('empty-str', "''", 2), ('empty-bytes', "b''", 2),
+    # literals that only exist after constant folding (the folded node is created by a transform, not by the parser)
+    ('true-folded', '(True|False)', 2), ('false-folded', '(True&False)', 2),
 ]
 # pairs of literals that compare equal / look alike but must stay distinct
 MIXED = [
